@@ -68,6 +68,22 @@ CHECKS = {
                 technique="exhaustive enumeration of labellings (T'<=6/8, K in {2,3}) x per-sensor translations at function level + main-loop explorer monitor; known-finding classification by signature",
                 text="Every labelling into non-empty clusters on integer data sets and their per-sensor translations vs the definition with the per-column centroid; converged enumerated runs. Mismatches equal to the scalar-centre formula are the listed known finding; anything else is a violation.",
                 note="trusted: reference formula; known finding ch-scalar-centre is suppressed by signature only"),
+    "C04": dict(engine=E1, cat="exploration", ref="§4 C04",
+                technique="exhaustive enumeration of (N,W,K,series-length tuples in every order) through both real front ends under scripted seams, plus default-path runs; oracle on the result object only",
+                text="Every (N,W,K) with N<=3, W<=6, K in {2,3} x three lengths (single) and every ordered tuple of up to 3 (thorough up to 6) unequal-length series (joint): label count, exact -1 margins for odd and even W, label range, MRF count and shape, echoed K and W, per-series lists equal to their slice of the joint labelling.",
+                note="trusted: scripted contiguous initial labelling so that runs complete; runs that raise are counted, not judged"),
+    "C14": dict(engine=E4, cat="exploration", ref="§3.4, §4 C14",
+                technique="enumeration of pool schedules (completion permutation x finished-prefix per round) on a virtual pool, forced completion permutations x worker counts on the real multiprocessing.Pool (turn-taking handshake), and all call histories up to depth h in fresh processes; bitwise result comparison",
+                text="Every schedule script within the stated bound on the virtual pool; every feasible completion permutation for num_processors 1..8 with multiprocessing off/on on the real pool; same-seed repeats in and across processes; every history of up to 2 (thorough 3) preceding calls from 4 call shapes. Complete results must be bit-identical to the single-pool reference.",
+                note="trusted: a schedule whose arrival log differs from its script is a harness error; task-to-worker assignment observed not forced; BLAS pinned to one thread"),
+    "C18": dict(engine=E1, cat="exploration", ref="§4 C18",
+                technique="exhaustive enumeration of equivalent parameter forms at the optimiser entry point (spectral grid), the labelling step (all small tables) and end to end (all initial labellings), bitwise comparison",
+                text="Scalar vs constant-matrix lambda and every exact numeric type at the optimiser over the spectral grid; scalar vs constant-vector beta and numeric types over every table with T*K<=6; lambda/beta/eps in every equivalent form through ticc_labels for every 2nd (thorough: every) initial labelling of the smallest driver: complete results bitwise equal.",
+                note="trusted: dyadic values make scalar*R and the R-fold sum exactly equal; non-dyadic lambda compared at 1e-9 relative"),
+    "C19": dict(engine=E1, cat="exploration", ref="§4 C19",
+                technique="enumeration of entry point x argument form x writability x memory order x outcome (incl. injected faults) x execution mode with byte-wise before/after snapshots",
+                text="All five entry points, every array-valued argument, writable and read-only, C and Fortran order, success and four failure outcomes, eps 0/1e-2, interpreted and JIT: arguments byte-identical afterwards, read-only variants return the same result.",
+                note="trusted: snapshots cover bytes, shape, strides, flags and list identity; the enumeration is over forms, data values are fixed"),
 }
 
 NOT_YET = "check not built yet in this session (work in progress; see DESIGN.md)"
